@@ -74,7 +74,9 @@ func NewConstInt[T constraints.Signed](val T, w Width) Const {
 		val >>= 8
 	}
 
-	if val != 0 && (val != -1 || bs[len(bs)-1] < 128) {
+	// The rest of val has to be the sign extension of the highest bit stored.
+	negative := len(bs) > 0 && bs[len(bs)-1] >= 128
+	if (negative && val != -1) || (!negative && val != 0) {
 		panic(fmt.Sprintf("value of type %T doesn't fit to value of width %d: %d",
 			val, w, valCopy))
 	}
